@@ -11,4 +11,5 @@ fi
 if [ -f mc/native.py ]; then
   PYTHONHASHSEED=0 /venv/bin/python -m mc.native --prebuild || echo "setup: native prebuild failed (checks rebuild on demand)"
 fi
+PYTHONHASHSEED=0 /venv/bin/python -m mc.elfcorpus >/dev/null 2>&1 || echo "setup: ELF corpus prebuild failed (C43/C44 rebuild on demand)"
 echo "setup done"
